@@ -85,8 +85,11 @@ coap_new_client_session_oscore_lkd(coap_context_t *ctx,
   coap_session_t *session =
       coap_new_client_session_lkd(ctx, local_if, server, proto);
 
-  if (!session)
+  if (!session) {
+    /* oscore_conf is consumed by this call */
+    coap_delete_oscore_conf(oscore_conf);
     return NULL;
+  }
 
   if (coap_oscore_initiate(session, oscore_conf) == 0) {
     coap_session_release_lkd(session);
@@ -123,8 +126,11 @@ coap_new_client_session_oscore_psk_lkd(coap_context_t *ctx,
   coap_lock_check_locked(ctx);
   session = coap_new_client_session_psk2_lkd(ctx, local_if, server, proto, psk_data);
 
-  if (!session)
+  if (!session) {
+    /* oscore_conf is consumed by this call */
+    coap_delete_oscore_conf(oscore_conf);
     return NULL;
+  }
 
   if (coap_oscore_initiate(session, oscore_conf) == 0) {
     coap_session_release_lkd(session);
@@ -161,8 +167,11 @@ coap_new_client_session_oscore_pki_lkd(coap_context_t *ctx,
   coap_lock_check_locked(ctx);
   session = coap_new_client_session_pki_lkd(ctx, local_if, server, proto, pki_data);
 
-  if (!session)
+  if (!session) {
+    /* oscore_conf is consumed by this call */
+    coap_delete_oscore_conf(oscore_conf);
     return NULL;
+  }
 
   if (coap_oscore_initiate(session, oscore_conf) == 0) {
     coap_session_release_lkd(session);
